@@ -54,7 +54,7 @@ CHECKS = {
          "DESIGN.md §3 C06"),
  "C13": ("differential/abstract-interpretation soundness testing: generated functions with loops, branches, extern/indirect calls and an executed internal callee, analysed by the real pipeline and executed from generated initial states by an independent interprocedural interpreter; oracle = concretization membership at every block arrival (proptest tapes, shrinking); thorough tier adds a coverage-guided libFuzzer stage (cargo-fuzz) over the same tape decoder and oracle",
          "Programs (register arithmetic, flags, comparisons incl. sub-register views, stack loads/stores through RSP/RBP, SP adjustments, small-constant and register-based addresses, structured counting loops, constant-joining diamonds, calls to malloc / pure / pointer-taking / stack-parameter / unknown extern functions, indirect calls, a small internal callee) go through normalize, CFG, function signatures and pointer inference. From 8 initial states each (6 separated, 2 aliasing) the harness' interpreter runs the function (extern calls: one calling-convention-obeying adversary that clobbers caller-saved registers and writes through pointer and stack parameters; internal calls are executed with one activation record per call) and checks at every block arrival, also inside the callee and after returns, that the block has an analysis state and every register's concrete value is a member of its abstract value (identifiers evaluated against the activation's entry snapshot). Two memory models (valid global segment / literal with poison tracking).",
-         "Trusted: irinterp/refsem, dom.rs membership, the extern-call adversary (one legal behaviour per call). Open known findings: identifier-alias assumption (aliasing initial states; callee activations in which one byte is reached through two disjoint identifier sets), indirect calls with non-Top target treated as not returning.",
+         "Trusted: irinterp/refsem, dom.rs membership, the extern-call adversary (one legal behaviour per call). The verdict comes from the programs without calls (the property speaks of single-function programs over registers and stack memory); programs with calls are explored as well, failures there are recorded as observations (labels), not violations. Open known finding: identifier-alias assumption (aliasing initial states).",
          "DESIGN.md §3 C13, §8.3"),
  "C15": ("generated programs; reference = exact exploration of the finite product (block, tainted-variable set) by the rules of the property; equality of reported and expected source sets (proptest tapes, shrinking); thorough tier adds a coverage-guided libFuzzer stage (cargo-fuzz) over the same tape decoder and oracle",
          "Programs with allocation calls, copies/arithmetic over a taint-capable register pool (callee-saved register, temporary, flags), overwrites, loads/stores with possibly dependent addresses, checks on dependent and independent conditions, loops, extern/indirect/internal calls and returns run through the real pipeline and cwe_476::check_cwe; the set of reported source calls must equal the specification's (reported sink must be a reachable sink); on programs with a mixed conditional block only reported => expected is required and a miss is the known class C15:mixed-condition-node.",
